@@ -15,7 +15,7 @@
    properties C02 / C03; also checked end to end). *)
 From Coq Require Import String.
 From Calamine Require Import Prelude Range Range_spec Col26 Col26_proofs FtabRef FtabMatch Ptg Ptg_proofs
-  FormulaPos_proofs FormulaEnv FormulaEnv_proofs Ptg_total FormulaEnv_total.
+  FormulaPos_proofs FormulaEnv FormulaEnv_proofs Ptg_total FormulaEnv_total FormulaSheet FormulaSheet_proofs.
 From CalamineGen Require Tables.
 Open Scope N_scope.
 
@@ -118,7 +118,7 @@ Proof. exact user_function_correct_xls. Qed.
    1 / 2 / 3 / 4 / 10 values in both formats (in domain, decoded to the spec text), MMULT / LENB /
    CONVERT with 2 / 1 / 3 parameters, formulas with PtgAttrSpace in front of the first operand *)
 Example C14_repaired_witnesses_nonvacuous :
-  let xenv := {| xe_sheets := []; xe_names := [lit "_xlfn.CONCAT"]; xe_xtis := [] |} in
+  let xenv := {| xe_sheets := []; xe_names := [lit "_xlfn.CONCAT"]; xe_xtis := []; xe_base := None |} in
   let benv := {| be_sheets := []; be_names := [lit "_xlfn.CONCAT"] |} in
   let sf := fun _ : N => @nil N in
   xlsb_parse_formula sf benv [0x23; 1; 0; 0; 0; 0x17; 1; 0; 65; 0; 0x19; 0x40; 0; 1; 0x17; 1; 0; 98; 0; 0x42; 3; 255; 0]
@@ -146,7 +146,7 @@ Proof. exact repaired_witnesses. Qed.
    witnesses now satisfy the spec (16-bit strings incl. surrogate pairs and doubled quotes are part
    of the proved grammar) *)
 Example C14_former_known_witnesses_nonvacuous :
-  let env := {| xe_sheets := []; xe_names := []; xe_xtis := [] |} in
+  let env := {| xe_sheets := []; xe_names := []; xe_xtis := []; xe_base := None |} in
   let benv := {| be_sheets := []; be_names := [] |} in
   xls_parse_formula (fun _ => []) env (frame_xls (encode_xls (EStr true [97; 98]))) = Ok (lit """ab""") /\
   xls_parse_formula (fun _ => []) env (frame_xls (encode_xls (EStr false [97; 34; 98]))) = Ok (lit """a""""b""") /\
@@ -212,9 +212,15 @@ Theorem C14_defined_names_in_order : forall show_f64 ext ds r,
   spec_names_xlsb show_f64 ext [] ds = Ok r -> map fst r = map nr_name ds.
 Proof. exact defined_names_in_order_xlsb. Qed.
 
+(* xls: the name a Lbl record defines is [lb_logical]: the stored string, except that a built-in name
+   (fBuiltin, one character holding an id of MS-XLS 2.5.114) is "_xlnm." ++ its name, as xlsx and xlsb
+   store it (audit G5, repaired: the one-character id used to be reported) *)
+Theorem C14_builtin_names_table : forall c, nthN BUILTIN_NAMES c = builtin_name c.
+Proof. exact builtin_table. Qed.
+
 Theorem C14_defined_names_in_order_xls : forall show_f64 sheets gs names xtis, forallb wf_grec gs = true ->
   xls_read_names show_f64 sheets (map enc_grec gs) = Ok (names, xtis) ->
-  map fst names = map lb_name (lbls_of gs) /\ xtis = xtis_of gs.
+  map fst names = map lb_logical (lbls_of gs) /\ xtis = xtis_of gs.
 Proof. exact defined_names_in_order_xls. Qed.
 
 (* … and the reported text of the i-th name is the A1 rendering of its whole formula, for every
@@ -225,9 +231,9 @@ Theorem C14_defined_name_text_is_render_xls : forall show_f64 sheets gs names xt
   xls_read_names show_f64 sheets (map enc_grec gs) = Ok (names, xtis) ->
   nth_error (lbls_of gs) i = Some d -> lb_rgce d = encode_xls e ->
   N.of_nat (length (encode_xls e)) < 65536 ->
-  let env := {| xe_sheets := map sheet_text sheets; xe_names := map lb_name (lbls_of gs); xe_xtis := xtis_of gs |} in
+  let env := {| xe_sheets := map sheet_text sheets; xe_names := map lb_logical (lbls_of gs); xe_xtis := xtis_of gs; xe_base := None |} in
   wf_xls env e = true ->
-  nth_error names i = Some (lb_name d, render_xls show_f64 env e).
+  nth_error names i = Some (lb_logical d, render_xls show_f64 env e).
 Proof. exact defined_name_text_is_render_xls. Qed.
 
 (* the name used for PtgName index i+1 is the i-th record's name, whatever flags the records carry;
@@ -240,7 +246,7 @@ Proof. exact name_index_stable_xlsb. Qed.
 Theorem C14_name_index_stable_xls : forall show_f64 sheets gs names xtis i d, forallb wf_grec gs = true ->
   xls_read_names show_f64 sheets (map enc_grec gs) = Ok (names, xtis) ->
   nth_error (lbls_of gs) i = Some d ->
-  spec_name (map fst names) (N.of_nat i + 1) = lb_name d.
+  spec_name (map fst names) (N.of_nat i + 1) = lb_logical d.
 Proof. exact name_index_stable_xls. Qed.
 
 Theorem C14_ptgname_is_ith_record_xlsb : forall show_f64 ext ds r i d k,
@@ -254,8 +260,8 @@ Theorem C14_ptgname_is_ith_record_xls : forall show_f64 sheets gs names xtis i d
   forallb wf_grec gs = true ->
   xls_read_names show_f64 sheets (map enc_grec gs) = Ok (names, xtis) ->
   nth_error (lbls_of gs) i = Some d -> N.of_nat i + 1 < 4294967296 ->
-  xls_parse_formula show_f64 {| xe_sheets := sheets; xe_names := map fst names; xe_xtis := xtis |}
-    (frame_xls (encode_xls (EName k (N.of_nat i + 1)))) = Ok (lb_name d).
+  xls_parse_formula show_f64 {| xe_sheets := sheets; xe_names := map fst names; xe_xtis := xtis; xe_base := None |}
+    (frame_xls (encode_xls (EName k (N.of_nat i + 1)))) = Ok (lb_logical d).
 Proof. exact ptgname_is_ith_record_xls. Qed.
 
 (* 3-D references go through the XTI table: entry i names the sheet its firstSheet field points to *)
@@ -271,7 +277,7 @@ Proof. exact sheet3d_through_xti_xlsb. Qed.
 Theorem C14_sheet3d_through_xti_xls : forall show_f64 sheets gs names xtis i x nm, forallb wf_grec gs = true ->
   xls_read_names show_f64 sheets (map enc_grec gs) = Ok (names, xtis) ->
   nth_error (xtis_of gs) i = Some x -> snd (fst x) < 32768 ->
-  spec_sheet_xls {| xe_sheets := map quote_sheet_name sheets; xe_names := nm; xe_xtis := xtis |} (N.of_nat i)
+  spec_sheet_xls {| xe_sheets := map quote_sheet_name sheets; xe_names := nm; xe_xtis := xtis; xe_base := None |} (N.of_nat i)
   = match nthN sheets (snd (fst x)) with Some s => sheet_text s | None => lit "#REF" end.
 Proof. exact sheet3d_through_xti_xls. Qed.
 
@@ -284,11 +290,60 @@ Theorem C14_resolve_xti_sheet_text : forall sheets first s, first < 2147483648 -
   nthN sheets first = Some s -> resolve_xti sheets first = sheet_text s.
 Proof. exact resolve_xti_sheet_text. Qed.
 
-(* shared / array formula members (PtgExp): both decoders answer "" whatever the shared formula is *)
-Theorem C14_refuted_ptgexp : forall show_f64 xenv benv r c, r < 65536 -> c < 65536 ->
-  xls_parse_formula show_f64 xenv (frame_xls (0x01 :: le 2 r ++ le 2 c)) = Ok [] /\
+(* ---------------------------------------------------------------- shared and array formulas (xls) *)
+(* former known class K_PTGEXP, xls half (repaired): the cells of a shared / array formula carry only
+   PtgExp(first cell); the formula is in the SHRFMLA / ARRAY record that follows the first cell's FORMULA
+   record.  The decoder with a base cell: PtgRefN / PtgAreaN are part of the proved grammar
+   (C14_rpn_correct_xls covers ERefN / EAreaN: relative components are offsets from the base cell
+   [xe_base], added modulo 65536 rows / 256 columns — Ptg.translate). *)
+Theorem C14_translate_offsets_are_signed : forall (base d : Z), (0 <= base)%Z ->
+  ((base + d mod 65536) mod 65536 = (base + d) mod 65536)%Z /\
+  ((base + (d mod 16384) mod 256) mod 256 = (base + d) mod 256)%Z.
+Proof. intros base d H. split; [apply translate_signed_row|apply translate_signed_col]; exact H. Qed.
+
+(* the formula cells of a whole sheet substream, from its records: stream order, one cell per FORMULA
+   record; plain cells with the text of their own tokens, the cells of a shared group with the group's
+   expression translated to their own position, the cells of an array group with the array's expression *)
+Theorem C14_sheet_formulas_xls : forall show_f64 unrec sheets names xtis l,
+  wf_layout sheets names xtis l ->
+  xls_sheet_formulas show_f64 unrec sheets names xtis (flat_map enc_fitem l)
+  = Ok (spec_formulas show_f64 sheets names xtis l).
+Proof. exact sheet_formulas_spec. Qed.
+
+Theorem C14_shared_formula_members_xls : forall show_f64 unrec sheets names xtis l p hd first phd rng cuse e r,
+  wf_layout sheets names xtis l ->
+  In (FShared first phd rng cuse e) l -> In (FMember p hd first) l ->
+  xls_sheet_formulas show_f64 unrec sheets names xtis (flat_map enc_fitem l) = Ok r ->
+  In (p, render_xls show_f64 (env_at sheets names xtis (Some p)) e) r /\
+  In (first, render_xls show_f64 (env_at sheets names xtis (Some first)) e) r.
+Proof. exact shared_formula_members_xls. Qed.
+
+Theorem C14_array_formula_members_xls : forall show_f64 unrec sheets names xtis l p hd first phd rng flags e r,
+  wf_layout sheets names xtis l ->
+  In (FArray first phd rng flags e) l -> In (FMember p hd first) l ->
+  xls_sheet_formulas show_f64 unrec sheets names xtis (flat_map enc_fitem l) = Ok r ->
+  In (p, render_xls show_f64 (env_at sheets names xtis None) e) r /\
+  In (first, render_xls show_f64 (env_at sheets names xtis None) e) r.
+Proof. exact array_formula_members_xls. Qed.
+
+(* a column of three cells sharing  =A2*2+$C$1  (first cell B2), read from B2, B3 and B4; a reference
+   whose translation wraps (row offset -1 seen from row 1 = row 65536); an array formula over A6:B7 *)
+Example C14_shared_formula_nonvacuous :
+  wf_layout [] [] [] ex_shared_layout /\
+  xls_sheet_formulas (fun _ => []) (fun _ _ => []) [] [] [] (flat_map enc_fitem ex_shared_layout)
+  = Ok [((0, 3), lit "SUM(D65536:E$2)"); ((0, 4), lit "SUM(E65536:F$2)");
+        ((1, 1), lit "A2*2+$C$1"); ((2, 1), lit "A3*2+$C$1"); ((3, 1), lit "A4*2+$C$1");
+        ((5, 0), lit "SUM(A1:B2)"); ((5, 1), lit "SUM(A1:B2)"); ((6, 0), lit "SUM(A1:B2)"); ((6, 1), lit "SUM(A1:B2)")].
+Proof. exact shared_formula_nonvacuous. Qed.
+
+(* what is left of K_PTGEXP — xlsb: the decoder still answers "" for PtgExp, and the xlsb reader does not
+   look at BrtShrFmla / BrtArrFmla (class K_PTGEXP is restricted to xlsb) *)
+Theorem C14_refuted_ptgexp_xlsb : forall show_f64 benv r, r < 65536 ->
   xlsb_parse_formula show_f64 benv (0x01 :: le 4 r) = Ok [].
-Proof. exact refuted_ptgexp. Qed.
+Proof.
+  intros show_f64 benv r Hr.
+  exact (proj2 (refuted_ptgexp show_f64 {| xe_sheets := []; xe_names := []; xe_xtis := []; xe_base := None |} benv Hr Hr)).
+Qed.
 
 (* stored-text readers: non-empty texts at their positions, "" elsewhere in their tight box *)
 Theorem C14_stored_text_positions : forall (cells : list (pos * list N)),
@@ -312,7 +367,7 @@ Proof. exact xlsb_names_nonvacuous. Qed.
 Example C14_xls_names_nonvacuous :
   forallb wf_grec ex_globals = true /\
   xls_read_names (fun _ => []) [lit "S1"; lit "My Sheet"] (map enc_grec ex_globals)
-  = Ok ([([13], lit "'My Sheet'!$A$1:$C$10"); ([26085; 128512], lit "S1!$AB$5")], [(0, 1, 1); (0, 0, 0)]).
+  = Ok ([(lit "_xlnm._FilterDatabase", lit "'My Sheet'!$A$1:$C$10"); ([26085; 128512], lit "S1!$AB$5")], [(0, 1, 1); (0, 0, 0)]).
 Proof. exact xls_names_nonvacuous. Qed.
 
 Example C14_stored_text_positions_nonvacuous :
@@ -420,5 +475,10 @@ Print Assumptions C14_ptgname_is_ith_record_xls.
 Print Assumptions C14_sheet3d_through_xti_xlsb.
 Print Assumptions C14_sheet3d_through_xti_xls.
 Print Assumptions C14_defined_name_text_is_render_xls.
-Print Assumptions C14_refuted_ptgexp.
+Print Assumptions C14_refuted_ptgexp_xlsb.
+Print Assumptions C14_builtin_names_table.
+Print Assumptions C14_translate_offsets_are_signed.
+Print Assumptions C14_sheet_formulas_xls.
+Print Assumptions C14_shared_formula_members_xls.
+Print Assumptions C14_array_formula_members_xls.
 Print Assumptions C14_stored_text_positions.
